@@ -209,6 +209,38 @@ def run(facts, res):
         res.instance("A4", "%s: deltas.clear() dominates every deltas.insert(): %s" % (name, ok), b.loc())
         if not ok:
             res.violation("A4", "%s|block-map-not-cleared" % name, "%s parses blocks into a map that was not cleared first" % name, b.loc())
+    # A4b: no early success - every Ok return of reload / refresh / reload_until lies behind the (reset,) marking and
+    # applying steps, so a held-back block is re-examined by *every* successful refresh, whatever arrived
+    for name in ("melda::Melda::reload", "melda::Melda::refresh", "melda::Melda::reload_until"):
+        b = facts.body(name)
+        if b is None:
+            continue
+        cfg = cfg_of(b)
+        marks = [s for s in cg.sites[b.path] if s.callee is not None and s.callee.name in ("mark_valid_deltas", "check_delta")]
+        applies = [s for s in cg.sites[b.path] if any(t.path in [a.path for a in appliers] or any(cg.reaches(t, a.path) for a in appliers)
+                                                      for t in s.targets + s.closures)
+                   and not any(t.path in ("melda::Melda::reload",) for t in s.targets)]
+        resets = []
+        if name.endswith("refresh"):
+            for s in cg.sites[b.path]:
+                for cb in s.closures:
+                    if any(v == "Pending" for (_, _, v) in status_writes(cb)):
+                        resets.append(s)
+        oks = []
+        for ob, st in assigns_of_return(b, "Ok"):
+            oks.append(ob)
+        # returns that merely forward the result of a delegated guarded operation are checked in that operation
+        need = [("marking pass", marks), ("apply pass", applies)] + ([("Blocked->Pending reset", resets)] if name.endswith("refresh") else [])
+        for what, sites in need:
+            # loops: the apply site may sit inside a loop (reload_until's work list); use the loop's dominating entry
+            ok = bool(sites) and all(any(cfg.dominates(s.block, ob) or any(cfg.dominates(d, ob) for d in cfg.dominators_of(s.block)
+                                                                           if d < cfg.n and cfg.is_loop_header(d) and cfg.reaches(s.block, d))
+                                         for s in sites) for ob in oks) and bool(oks)
+            n4 += 1
+            res.instance("A4", "%s: every Ok return lies behind the %s: %s" % (name, what, ok), b.loc())
+            if not ok:
+                res.violation("A4", "%s|early-success-skips:%s" % (name, what.replace(" ", "-")),
+                              "%s can return Ok without having run the %s: a block held back earlier would stay held back although its dependencies have arrived" % (name, what), b.loc())
     res.floor("A4", "refresh/reload anchors", n4, 3)
 
     # ------------------------------------------------------------------ A5
